@@ -127,6 +127,9 @@ EXEC += ["call obj%arr(i + 1, 2)%method(a)", "call tab(k + 1, 2)%run()", "x = ta
          "allocate(w(n(1, 2)), stat=st(1, 2))", "deallocate(w, stat=st(1, 2))", "nullify(pt(i + 1, 2)%p)", "pt(i + 1, 2)%p => tg(1:n(1, 2))", "goto (10, 20) sel(i + 1, 2)", "stop"]
 SPEC += ["type :: cl\ncharacter :: name*20\ncharacter :: code*4 = 'none'\ncharacter :: tags(3)*8\ncharacter :: both(2)*(n + 1) = 'x'\nreal :: r1, r2(3), r3 = 1.0\ntype(cl), pointer :: nx => null(), pv(:)\nend type cl",
          "character :: w1*20, w2(3)*8, w3*(n + 1) = 'x', w4*(*)", "character*8 :: x1, x2*4, x3(2)*2"]
+# labelled DO loops sharing a label / ended by an action statement, with statements after the inner DO (indentation of the printed text)
+EXEC += ["do 10 i = 1, 2\ndo 10 j = 1, 2\nx = 1\n10 a(i, j) = 0", "do 20 i = 1, 2\nx = 1\ndo 20 j = 1, 2\ny = 2\n20 continue", "do 30 i = 1, 2\ndo 40 j = 1, 2\ny = 2\n40 a(j) = 0\nz = 3\n30 b(i) = 0",
+         "do 50 i = 1, 2\nif (i > 1) then\nx = 1\nend if\n50 end do"]
 IFACE = ["procedure f", "module procedure f", "module procedure f, g", "procedure :: f", "procedure :: f, g", "module procedure :: f", "subroutine s(a)\ninteger a\nend subroutine s",
          "function f(x)\nreal x\nend function f"]
 FORMATS = ["a // a", "i3, /, /, a", "a, :, :, i2", "2/, a", "i2, 3x, /, /, /", "1x, i5", "i5", "f10.3", "a", "3(i2, 1x)", "'text'", "e12.4", "2i5", "a, /, a", "i5.3, es12.4", "l1, g10.3", "tr2, tl1, t10"]
